@@ -84,24 +84,43 @@ def classlessStaticRoute : UInt8 := 121
 def vivc : UInt8 := 124
 end Code
 
-/-- accessor name ↦ option code, as one table (the regenerated fact
-`Gen.v4accCodes` must equal it). `DomainSearch` is listed although its value
-type is modelled elsewhere. -/
+/-- accessor ↦ (option code it reads, "Name:Kind") where Kind is the getter or
+value type the accessor parses with (`+TrimRight` when trailing NULs are
+trimmed), sorted by name.  The regenerated fact `Gen.v4accCodes` (every method
+of `*DHCPv4` that reads `d.Options` with a constant code) must equal it, so an
+accessor that reads another code, parses with another type, or a new accessor
+the model does not know breaks the obligation. `DomainSearch` is listed
+although its value type is modelled elsewhere. -/
 def accTable : List (Nat × String) :=
-  [ (Code.autoConfigure.toNat, "AutoConfigure"), (Code.bootfileName.toNat, "BootFileNameOption"),
-    (Code.broadcastAddress.toNat, "BroadcastAddress"), (Code.classIdentifier.toNat, "ClassIdentifier"),
-    (Code.classlessStaticRoute.toNat, "ClasslessStaticRoute"), (Code.clientArch.toNat, "ClientArch"),
-    (Code.dns.toNat, "DNS"), (Code.domainName.toNat, "DomainName"), (Code.domainSearch.toNat, "DomainSearch"),
-    (Code.hostName.toNat, "HostName"), (Code.ipAddressLeaseTime.toNat, "IPAddressLeaseTime"),
-    (Code.rebindingTime.toNat, "IPAddressRebindingTime"), (Code.renewalTime.toNat, "IPAddressRenewalTime"),
-    (Code.ipv6OnlyPreferred.toNat, "IPv6OnlyPreferred"), (Code.maxMessageSize.toNat, "MaxMessageSize"),
-    (Code.message.toNat, "Message"), (Code.messageType.toNat, "MessageType"),
-    (Code.ntpServers.toNat, "NTPServers"), (Code.netBIOSNameServers.toNat, "NetBIOSNameServers"),
-    (Code.parameterRequestList.toNat, "ParameterRequestList"), (Code.relayAgentInfo.toNat, "RelayAgentInfo"),
-    (Code.requestedIPAddress.toNat, "RequestedIPAddress"), (Code.rootPath.toNat, "RootPath"),
-    (Code.router.toNat, "Router"), (Code.serverIdentifier.toNat, "ServerIdentifier"),
-    (Code.subnetMask.toNat, "SubnetMask"), (Code.tftpServerName.toNat, "TFTPServerName"),
-    (Code.userClass.toNat, "UserClass"), (Code.vivc.toNat, "VIVC") ]
+  [ (Code.autoConfigure.toNat, "AutoConfigure:GetByte"),
+    (Code.bootfileName.toNat, "BootFileNameOption:GetString+TrimRight"),
+    (Code.broadcastAddress.toNat, "BroadcastAddress:GetIP"),
+    (Code.classIdentifier.toNat, "ClassIdentifier:GetString"),
+    (Code.classlessStaticRoute.toNat, "ClasslessStaticRoute:Routes"),
+    (Code.clientArch.toNat, "ClientArch:iana.Archs"),
+    (Code.dns.toNat, "DNS:GetIPs"),
+    (Code.domainName.toNat, "DomainName:GetString"),
+    (Code.domainSearch.toNat, "DomainSearch:rfc1035label.FromBytes"),
+    (Code.hostName.toNat, "HostName:GetString+TrimRight"),
+    (Code.ipAddressLeaseTime.toNat, "IPAddressLeaseTime:Duration"),
+    (Code.rebindingTime.toNat, "IPAddressRebindingTime:Duration"),
+    (Code.renewalTime.toNat, "IPAddressRenewalTime:Duration"),
+    (Code.ipv6OnlyPreferred.toNat, "IPv6OnlyPreferred:Duration"),
+    (Code.maxMessageSize.toNat, "MaxMessageSize:GetUint16"),
+    (Code.message.toNat, "Message:GetString"),
+    (Code.messageType.toNat, "MessageType:MessageType"),
+    (Code.ntpServers.toNat, "NTPServers:GetIPs"),
+    (Code.netBIOSNameServers.toNat, "NetBIOSNameServers:GetIPs"),
+    (Code.parameterRequestList.toNat, "ParameterRequestList:OptionCodeList"),
+    (Code.relayAgentInfo.toNat, "RelayAgentInfo:RelayOptions"),
+    (Code.requestedIPAddress.toNat, "RequestedIPAddress:GetIP"),
+    (Code.rootPath.toNat, "RootPath:GetString"),
+    (Code.router.toNat, "Router:GetIPs"),
+    (Code.serverIdentifier.toNat, "ServerIdentifier:GetIP"),
+    (Code.subnetMask.toNat, "SubnetMask:IPMask"),
+    (Code.tftpServerName.toNat, "TFTPServerName:GetString+TrimRight"),
+    (Code.userClass.toNat, "UserClass:Strings"),
+    (Code.vivc.toNat, "VIVC:VIVCIdentifiers") ]
 
 /-! ### IP (option_ip.go) -/
 
